@@ -198,6 +198,8 @@ def apply_op(p, op, arg):
         return call_guard(p.__call__)
     if op == 'ReadPsd':
         return call_guard(getattr, p, 'psd')
+    if op == 'GetConverted':
+        return call_guard(p.get_converted_psd, arg)
     raise KeyError(op)
 
 
